@@ -44,23 +44,77 @@ static bool resolves_inside(const std::string& full, const std::string& base) {
     }
     return true;
 }
+// underlay for init(): every path is an existing directory; nothing else is ever called
+struct DirFS : public IFileSystem {
+    IFile* open(const char*, int) override { return nullptr; }
+    IFile* open(const char*, int, mode_t) override { return nullptr; }
+    IFile* creat(const char*, mode_t) override { return nullptr; }
+    int mkdir(const char*, mode_t) override { return -1; }
+    int rmdir(const char*) override { return -1; }
+    int symlink(const char*, const char*) override { return -1; }
+    ssize_t readlink(const char*, char*, size_t) override { return -1; }
+    int link(const char*, const char*) override { return -1; }
+    int rename(const char*, const char*) override { return -1; }
+    int unlink(const char*) override { return -1; }
+    int chmod(const char*, mode_t) override { return -1; }
+    int chown(const char*, uid_t, gid_t) override { return -1; }
+    int lchown(const char*, uid_t, gid_t) override { return -1; }
+    int statfs(const char*, struct statfs*) override { return -1; }
+    int statvfs(const char*, struct statvfs*) override { return -1; }
+    int stat(const char*, struct stat* st) override { memset(st, 0, sizeof(*st)); st->st_mode = S_IFDIR | 0755; return 0; }
+    int lstat(const char* p, struct stat* st) override { return stat(p, st); }
+    int access(const char*, int) override { return -1; }
+    int truncate(const char*, off_t) override { return -1; }
+    int utime(const char*, const struct utimbuf*) override { return -1; }
+    int utimes(const char*, const struct timeval[2]) override { return -1; }
+    int lutimes(const char*, const struct timeval[2]) override { return -1; }
+    int mknod(const char*, mode_t, dev_t) override { return -1; }
+    int syncfs() override { return -1; }
+    photon::fs::DIR* opendir(const char*) override { return nullptr; }
+};
 static std::string why;
+// every base goes through the REAL SubFileSystem::init() over the local filesystem (each base is an existing directory)
+struct Base { const char* given; SubFileSystem* fs; std::string eff; };
+static std::vector<Base> bases;
+static bool setup_bases() {
+    static const char* B[] = {"/base/dir/", "/", ".", "./", "/tmp", "/usr/", "/a/", "a"};
+    auto lfs = new DirFS;
+    for (auto b : B) {
+        Base x; x.given = b; x.fs = (SubFileSystem*)calloc(1, sizeof(SubFileSystem));
+        if (x.fs->init(lfs, b, false) != 0) { why = std::string("init() refused the directory ") + b; return false; }
+        x.eff = b; if (x.eff.back() != '/') x.eff.push_back('/');
+        // a configured (non-empty) base must be recorded as the base text, '/'-terminated: with no recorded base nothing is checked or prefixed
+        if (std::string(x.fs->base_path, x.fs->base_path_len) != x.eff) { why = std::string("init('") + b + "') recorded the base as '" + std::string(x.fs->base_path, x.fs->base_path_len) + "': paths are not confined to that directory"; return false; }
+        bases.push_back(x);
+    }
+    return true;
+}
+static bool check_base(const Base& B, const std::string& s) {
+    bool esc = ref_escapes(s);
+    const char* p = s.c_str();
+    SubFileSystem::PathCat cat(B.fs, p);
+    bool fits = s.size() + B.eff.size() < sizeof(cat.buf) - 2;
+    if (p == nullptr) {
+        if (!esc && fits) { why = "legal path rejected by PathCat (base " + B.eff + ")"; return false; }
+        return true;
+    }
+    if (esc) { why = "escaping path forwarded by PathCat (base " + B.eff + ")"; return false; }
+    if (p != cat.buf || std::string(p) != B.eff + s) { why = "forwarded path is not base + path (base " + B.eff + ", forwarded " + std::string(p) + ")"; return false; }
+    if (B.eff[0] == '/' && !resolves_inside(p, B.eff)) { why = "forwarded path resolves outside the base directory (base " + B.eff + ")"; return false; }
+    return true;
+}
 static bool check_one(const std::string& s) {
     bool esc = ref_escapes(s);
     if (path_level_valid(s.c_str()) != !esc) { why = esc ? "escaping path accepted by level_valid" : "legal path refused by level_valid"; return false; }
-    static SubFileSystem* fs = nullptr;
-    static const char* BASE = "/base/dir/";
-    if (!fs) { fs = (SubFileSystem*)calloc(1, sizeof(SubFileSystem)); strcpy(fs->base_path, BASE); fs->base_path_len = strlen(BASE); }
-    const char* p = s.c_str();
-    SubFileSystem::PathCat cat(fs, p);
-    bool fits = s.size() + strlen(BASE) < sizeof(cat.buf) - 2;
-    if (p == nullptr) {
-        if (!esc && fits) { why = "legal path rejected by PathCat"; return false; }
-        return true;
+    if (bases.empty() && !setup_bases()) return false;
+    for (auto& B : bases) {
+        if (!check_base(B, s)) return false;
+        // paths whose text happens to begin with the base text are ordinary paths below the base
+        if (s.size() + 2 * B.eff.size() < 4000) {
+            if (!check_base(B, B.eff + s)) return false;
+            if (!check_base(B, B.eff.substr(0, B.eff.size() - 1) + s)) return false;
+        }
     }
-    if (esc) { why = "escaping path forwarded by PathCat"; return false; }
-    if (p != cat.buf || std::string(p) != std::string(BASE) + s) { why = "forwarded path is not base + path"; return false; }
-    if (!resolves_inside(p, BASE)) { why = "forwarded path resolves outside the base directory"; return false; }
     return true;
 }
 static void emit(const std::string& s) {
@@ -107,6 +161,6 @@ int main(int argc, char** argv) {
         ++cases;
         if (!check_one(s)) { emit(s); return 3; }
     }
-    printf("OK %lu (all strings over {/ . a} of length <= %d through the real level_valid and PathCat, %lu random up to 4200 chars)\n", cases, maxlen, nrand);
+    printf("OK %lu (all strings over {/ . a} of length <= %d through the real level_valid, and through the real init() + PathCat for 8 bases (absolute, relative, \".\", \"/\"), each also with the base text in front of the path; %lu random up to 4200 chars)\n", cases, maxlen, nrand);
     return 0;
 }
